@@ -63,6 +63,18 @@ type simNode struct {
 	id uint64
 	st *raft.MemoryStorage
 	rn *raft.RawNode
+	// shadow = every entry the node holds, compacted ones included (entry k of the model's log
+	// is shadow[k-1], real index k+1).  It is maintained from what the Ready loop persists, and
+	// checked against the storage's suffix after every event.
+	shadow []pb.Entry
+	// the log prefix carried (as ghost information) by the MsgSnap being stepped
+	pendingGhost []pb.Entry
+}
+
+// a message on the network; ghost = for MsgSnap, the sender's log up to the snapshot index
+type flightMsg struct {
+	m     pb.Message
+	ghost []pb.Entry
 }
 
 type cluster struct {
@@ -70,7 +82,7 @@ type cluster struct {
 	electionTick int
 	maxSize      uint64
 	nodes        []*simNode
-	flight       []pb.Message
+	flight       []flightMsg
 	w            *bufio.Writer
 	nextPayload  int
 	events       int
@@ -111,7 +123,8 @@ func entsStr(es []pb.Entry) string {
 }
 
 // msgKey renders a message in the model's vocabulary (and doubles as its identity for replays).
-func msgKey(m pb.Message) string {
+func msgKey(fm flightMsg) string {
+	m := fm.m
 	rej := 0
 	if m.Reject {
 		rej = 1
@@ -129,6 +142,8 @@ func msgKey(m pb.Message) string {
 		return fmt.Sprintf("H %d %d %d 0 0 %d 0 0", m.From, m.To, m.Term, monus1(m.Commit))
 	case pb.MsgHeartbeatResp:
 		return fmt.Sprintf("I %d %d %d 0 0 0 0 0", m.From, m.To, m.Term)
+	case pb.MsgSnap:
+		return fmt.Sprintf("S %d %d %d %d %d 0 0 %s", m.From, m.To, m.Term, m.Snapshot.Metadata.Term, monus1(m.Snapshot.Metadata.Index), entsStr(fm.ghost))
 	case pb.MsgProp:
 		p := uint64(0)
 		if len(m.Entries) > 0 {
@@ -189,6 +204,18 @@ func (c *cluster) drain(nd *simNode) []pb.Message {
 			if err := nd.st.ApplySnapshot(rd.Snapshot); err != nil {
 				panic(err)
 			}
+			k := int(rd.Snapshot.Metadata.Index) - 1
+			if k > len(nd.pendingGhost) {
+				panic("harness: snapshot without its ghost prefix")
+			}
+			nd.shadow = append([]pb.Entry(nil), nd.pendingGhost[:k]...)
+		}
+		if len(rd.Entries) > 0 {
+			at := int(rd.Entries[0].Index) - 2 // position in shadow of the first new entry
+			if at < 0 || at > len(nd.shadow) {
+				panic("harness: entries do not connect to the shadow log")
+			}
+			nd.shadow = append(append([]pb.Entry(nil), nd.shadow[:at]...), rd.Entries...)
 		}
 		if err := nd.st.Append(rd.Entries); err != nil {
 			panic(err)
@@ -225,20 +252,28 @@ func (c *cluster) writeState(nd *simNode) {
 	}
 	first, _ := nd.st.FirstIndex()
 	last, _ := nd.st.LastIndex()
-	var es []pb.Entry
+	if int(last)-1 != len(nd.shadow) {
+		panic(fmt.Sprintf("harness: storage last index %d but shadow has %d entries", last, len(nd.shadow)))
+	}
 	if last >= first {
-		var err error
-		es, err = nd.st.Entries(first, last+1, 1<<62)
+		es, err := nd.st.Entries(first, last+1, 1<<62)
 		if err != nil {
 			panic(err)
 		}
+		for j, e := range es {
+			sh := nd.shadow[int(first)-2+j]
+			if e.Term != sh.Term || e.Index != sh.Index || string(e.Data) != string(sh.Data) {
+				panic(fmt.Sprintf("harness: storage entry %d differs from the shadow log", e.Index))
+			}
+		}
 	}
+	es := nd.shadow
 	fmt.Fprintf(c.w, "ST %d %d %d %d %s %d %s\n", nd.id, bs.Term, bs.Vote, monus1(bs.Commit), role, bs.Lead, entsStr(es))
 }
 
 // one event: kind is C P T R D DD FP or the X-variants; m is the message for D/DD/FP.
 // Returns false when the node panicked (the trace then ends with a PANIC line).
-func (c *cluster) exec(kind string, i int, payload int, m *pb.Message) (ok bool) {
+func (c *cluster) exec(kind string, i int, payload int, m *flightMsg) (ok bool) {
 	nd := c.nodes[i]
 	crashBefore := strings.HasPrefix(kind, "X")
 	base := strings.TrimPrefix(kind, "X")
@@ -251,6 +286,8 @@ func (c *cluster) exec(kind string, i int, payload int, m *pb.Message) (ok bool)
 		fmt.Fprintf(c.w, "EV %s %d\n", kind, nd.id)
 	case "R":
 		fmt.Fprintf(c.w, "EV %s %d\n", kind, nd.id)
+	case "K", "SR":
+		fmt.Fprintf(c.w, "EV %s %d %d\n", kind, nd.id, payload)
 	case "D", "DD":
 		fmt.Fprintf(c.w, "EV %s %d %s\n", kind, nd.id, msgKey(*m))
 	case "FP":
@@ -271,8 +308,23 @@ func (c *cluster) exec(kind string, i int, payload int, m *pb.Message) (ok bool)
 		nd.rn.Tick()
 	case "R":
 		c.rebuild(nd)
+	case "K":
+		// compact the log up to model index payload (real index payload+1), which is applied
+		voters := make([]uint64, c.n)
+		for k := range voters {
+			voters[k] = uint64(k + 1)
+		}
+		if _, err := nd.st.CreateSnapshot(uint64(payload+1), &pb.ConfState{Voters: voters}, nil); err != nil {
+			panic(err)
+		}
+		if err := nd.st.Compact(uint64(payload + 1)); err != nil {
+			panic(err)
+		}
+	case "SR":
+		nd.rn.ReportSnapshot(uint64(payload), raft.SnapshotFailure)
 	case "D", "DD", "FP":
-		_ = nd.rn.Step(*m)
+		nd.pendingGhost = m.ghost
+		_ = nd.rn.Step(m.m)
 	}
 	var out []pb.Message
 	if crashBefore {
@@ -282,8 +334,16 @@ func (c *cluster) exec(kind string, i int, payload int, m *pb.Message) (ok bool)
 		out = c.drain(nd)
 	}
 	for _, o := range out {
-		fmt.Fprintf(c.w, "OUT %s\n", msgKey(o))
-		c.flight = append(c.flight, o)
+		fm := flightMsg{m: o}
+		if o.Type == pb.MsgSnap {
+			k := int(o.Snapshot.Metadata.Index) - 1
+			if k > len(nd.shadow) {
+				panic("harness: snapshot beyond the sender's log")
+			}
+			fm.ghost = append([]pb.Entry(nil), nd.shadow[:k]...)
+		}
+		fmt.Fprintf(c.w, "OUT %s\n", msgKey(fm))
+		c.flight = append(c.flight, fm)
 	}
 	c.writeState(nd)
 	c.events++
@@ -293,17 +353,21 @@ func (c *cluster) exec(kind string, i int, payload int, m *pb.Message) (ok bool)
 // ---------------------------------------------------------------------------- random schedules
 
 type profile struct {
-	wDeliver, wDup, wDrop, wTick, wPropose, wCampaign, wRestart, wCrashMid, wPartition int
+	wDeliver, wDup, wDrop, wTick, wPropose, wCampaign, wRestart, wCrashMid, wPartition, wCompact int
 }
 
 func (c *cluster) runRandom(r *rng, nevents int) {
 	p := profile{wDeliver: 50 + r.intn(40), wDup: r.intn(8), wDrop: r.intn(10), wTick: 4 + r.intn(12),
 		wPropose: 4 + r.intn(12), wCampaign: 1 + r.intn(6), wRestart: r.intn(5), wCrashMid: r.intn(4), wPartition: r.intn(3)}
-	total := p.wDeliver + p.wDup + p.wDrop + p.wTick + p.wPropose + p.wCampaign + p.wRestart + p.wCrashMid + p.wPartition
+	if r.chance(1, 2) {
+		p.wCompact = 1 + r.intn(6)
+	}
+	total := p.wDeliver + p.wDup + p.wDrop + p.wTick + p.wPropose + p.wCampaign + p.wRestart + p.wCrashMid + p.wPartition + p.wCompact
 	isolated := make([]bool, c.n)
 	deliverable := func() []int {
 		var idx []int
-		for k, m := range c.flight {
+		for k, fm := range c.flight {
+			m := fm.m
 			if int(m.To) >= 1 && int(m.To) <= c.n && !isolated[m.To-1] && !isolated[m.From-1] {
 				idx = append(idx, k)
 			}
@@ -319,14 +383,14 @@ func (c *cluster) runRandom(r *rng, nevents int) {
 			remove(k)
 		}
 		kind := kindD
-		if m.Type == pb.MsgProp {
+		if m.m.Type == pb.MsgProp {
 			if strings.HasPrefix(kindD, "X") {
 				kind = "XFP"
 			} else {
 				kind = "FP"
 			}
 		}
-		return c.exec(kind, int(m.To-1), 0, &m)
+		return c.exec(kind, int(m.m.To-1), 0, &m)
 	}
 	for c.events < nevents {
 		if len(c.flight) > 300 {
@@ -338,7 +402,13 @@ func (c *cluster) runRandom(r *rng, nevents int) {
 		switch {
 		case x < p.wDeliver:
 			if d := deliverable(); len(d) > 0 {
-				ok = stepMsg("D", d[r.intn(len(d))], false)
+				k := d[r.intn(len(d))]
+				// snapshots are often kept in flight so that stale ones get re-delivered later
+				if c.flight[k].m.Type == pb.MsgSnap && r.chance(1, 2) {
+					ok = stepMsg("DD", k, true)
+				} else {
+					ok = stepMsg("D", k, false)
+				}
 			} else {
 				ok = c.exec("T", r.intn(c.n), 0, nil)
 			}
@@ -370,6 +440,20 @@ func (c *cluster) runRandom(r *rng, nevents int) {
 				if d := deliverable(); len(d) > 0 {
 					ok = stepMsg("XD", d[r.intn(len(d))], false)
 				}
+			}
+		case x < p.wDeliver+p.wDup+p.wDrop+p.wTick+p.wPropose+p.wCampaign+p.wRestart+p.wCrashMid+p.wCompact:
+			// compaction of an applied prefix, or a snapshot-failure report that un-pauses a follower
+			i := r.intn(c.n)
+			nd := c.nodes[i]
+			if r.chance(3, 4) {
+				first, _ := nd.st.FirstIndex()
+				commit := nd.rn.BasicStatus().Commit
+				if commit >= first {
+					idx := first + uint64(r.intn(int(commit-first)+1))
+					ok = c.exec("K", i, int(idx)-1, nil)
+				}
+			} else {
+				ok = c.exec("SR", i, 1+r.intn(c.n), nil)
 			}
 		default:
 			// change the partition: isolate a random minority-or-not set, or heal
@@ -495,14 +579,26 @@ func cmdSimFile(args []string) error {
 			switch base {
 			case "C", "T", "R":
 				ok = c.exec(kind, id-1, 0, nil)
-			case "P":
+			case "P", "SR":
 				p, _ := strconv.Atoi(tok[3])
+				ok = c.exec(kind, id-1, p, nil)
+			case "K":
+				p, _ := strconv.Atoi(tok[3])
+				nd := c.nodes[id-1]
+				first, _ := nd.st.FirstIndex()
+				commit := nd.rn.BasicStatus().Commit
+				if uint64(p+1) > commit {
+					p = int(commit) - 1
+				}
+				if uint64(p+1) < first {
+					continue
+				}
 				ok = c.exec(kind, id-1, p, nil)
 			case "D", "DD", "FP":
 				key := strings.Join(tok[3:], " ")
 				found := -1
-				for k, m := range c.flight {
-					if msgKey(m) == key {
+				for k, fm := range c.flight {
+					if msgKey(fm) == key {
 						found = k
 						break
 					}
